@@ -322,6 +322,7 @@ Definition spec_pa (strict : bool) (addr : bytes) (rc chk av : Z) : bool :=
       else false).
 
 (** every byte of the line buffer is unchanged or now NUL, same length *)
+Definition nulw (old new : bytes) : Prop := Forall2 (fun x y => y = x \/ y = 0%N) old new.
 Fixpoint only_nuls_written (old new : bytes) : bool :=
   match old, new with
   | [], [] => true
